@@ -1,7 +1,7 @@
 (* C15 — parts of the full statement that are false of the (faithful) model. *)
 From Coq Require Import String List Bool ZArith Permutation.
 Import ListNotations.
-Require Import V.Lib.PyStr V.Lib.JTree V.Det.Model V.Det.Proofs V.Det.Refs V.Det.Aggregate.
+Require Import V.Lib.PyStr V.Lib.JTree V.Det.Model V.Det.Proofs V.Det.Refs V.Det.Aggregate V.Det.Replicate.
 Open Scope string_scope.
 Open Scope list_scope.
 
@@ -97,3 +97,32 @@ Proof.
   split; [vm_compute; discriminate|vm_compute; reflexivity].
 Qed.
 Print Assumptions C15_aggregate_set_order_refuted.
+
+
+(* S6, which templates replicate: the answer is a function of the sets of the COUNTING producers (those met before an
+   aggregating one in their scan), not of the set of all producers: the `break` ends the scan of a string at the
+   first aggregating producer.  "<summarise>:output <generate>:ref" in ONE argument makes `report` no replica,
+   "<generate>:ref <summarise>:output" makes it one (confirmed on the real code: the first namespace is rejected when
+   report uses %(replica)s).  The two strings are different (ordered) data, so this is no nondeterminism of loading
+   and no finding of C15; it is why C15_replicates_set_of_producers speaks of succ and why the key-order theorem
+   leaves the strings untouched. *)
+Definition ex_text_order (agg_first : bool) : tbl :=
+  let e (n : string) : loc := ["entry-instance"; n] in
+  [mk_inst (e "report") true false false
+     [("p", [(if agg_first then [e "summarise"; e "generate"] else [e "generate"; e "summarise"]); []])];
+   mk_inst (e "summarise") true false true [("parts", [[e "generate"]; []])];
+   mk_inst (e "generate") true true false []].
+
+Theorem C15_replicates_text_order_refuted :
+  exists t t' l,
+    (forall x, repl t x = repl t' x) /\ (forall x, agg t x = agg t' x) /\
+    (forall x p, In p (concat (groups_at t x)) <-> In p (concat (groups_at t' x))) /\
+    can_replicate t l = false /\ can_replicate t' l = true.
+Proof.
+  exists (ex_text_order true), (ex_text_order false), ["entry-instance"; "report"].
+  split; [|split; [|split; [|split; vm_compute; reflexivity]]].
+  - intros x. unfold repl. cbn. repeat (destruct (loc_eqb x _); [reflexivity|]). reflexivity.
+  - intros x. unfold agg. cbn. repeat (destruct (loc_eqb x _); [reflexivity|]). reflexivity.
+  - intros x p. unfold groups_at. cbn. repeat (destruct (loc_eqb x _); [cbn; tauto|]). tauto.
+Qed.
+Print Assumptions C15_replicates_text_order_refuted.
